@@ -149,14 +149,77 @@ def _make_td(cls, state):
     return td
 
 
+def _normalize_metadata(obj, device):
+    # The metadata of a consolidated tensordict holds tuples when computed in memory
+    # and lists when read back from a file (json).
+    # A tensordict consolidated in a file is on cpu whereas its metadata may have no device.
+    if isinstance(obj, dict):
+        result = {key: _normalize_metadata(val, device) for key, val in obj.items()}
+        cls_metadata = result.get("cls_metadata")
+        if isinstance(cls_metadata, dict) and cls_metadata.get("device", "") is None:
+            cls_metadata["device"] = device
+        return result
+    if isinstance(obj, (tuple, list)):
+        return [_normalize_metadata(val, device) for val in obj]
+    return obj
+
+
+def _consolidated_is_current(data, consolidated) -> bool:
+    """Whether the consolidated storage and metadata still describe ``data``.
+
+    The storage and metadata are a snapshot taken when the tensordict was consolidated.
+    In-place modifications of the leaves are written in the storage and keep the
+    snapshot valid. Any other modification (entries set, replaced, deleted or renamed,
+    lock state, names or batch-size changes, also in a sub-tensordict) makes it obsolete.
+    """
+    storage = consolidated["storage"]
+    try:
+        metadata, flat_dict, flat_size, _ = data._reduce_vals_and_metadata(
+            requires_metadata=True, dtype=None
+        )
+    except Exception:
+        return False
+    device = str(storage.device)
+    if _normalize_metadata(metadata, device) != _normalize_metadata(
+        consolidated["metadata"], device
+    ):
+        return False
+    if sum(flat_size) != storage.numel():
+        return False
+    data_ptr = storage.data_ptr()
+    start = 0
+    for value, size in zip(flat_dict.values(), flat_size):
+        # empty values (and the placeholder of nested tensors) do not point to any data
+        if size and (
+            value.device != storage.device
+            or not value.is_contiguous()
+            or value.data_ptr() != data_ptr + start
+        ):
+            return False
+        start = start + size
+    return True
+
+
 def _reduce_td(data: TensorDict):
     consolidated = getattr(data, "_consolidated", None)
-    if consolidated and consolidated["metadata"] is not None:
-        storage = consolidated["storage"]
-        storge_metadata = consolidated["metadata"]
+    if consolidated and consolidated.get("metadata") is not None:
+        if _consolidated_is_current(data, consolidated):
+            storage = consolidated["storage"]
+            storge_metadata = consolidated["metadata"]
+            return (
+                _rebuild_tensordict_files_consolidated,
+                (storge_metadata, storage),
+            )
+        # the consolidated storage does not represent the content anymore:
+        # we serialize the tensordict as it is, without the obsolete storage
+        state = data.__getstate__()
+        state.pop("_consolidated", None)
         return (
-            _rebuild_tensordict_files_consolidated,
-            (storge_metadata, storage),
+            _make_td,
+            (
+                type(data),
+                state,
+            ),
         )
 
     # This is faster than the solution below.
